@@ -430,3 +430,154 @@ def ext_writes(name):
             return [0]
         return []
     return _EXT_WRITES.get(name)
+
+
+# ---------------------------------------------------------------------------------------------
+# read-range summaries: which byte ranges of each pointer parameter's pointee a function may read
+ALL = (0, 1 << 60)
+
+
+def _norm_ranges(rs):
+    rs = sorted(set(rs))
+    out = []
+    for lo, hi in rs:
+        if out and lo <= out[-1][1]:
+            out[-1] = (out[-1][0], max(out[-1][1], hi))
+        else:
+            out.append((lo, hi))
+    return out
+
+
+def covers(ranges, lo, hi):
+    for a, b in _norm_ranges(ranges):
+        if a <= lo and hi <= b:
+            return True
+    return False
+
+
+class ReadRanges:
+    def __init__(self, cg):
+        self.cg = cg
+        self.prog = cg.prog
+        self.rr = {}      # fn.key -> {param idx: [ranges]}
+        self._compute()
+
+    def _ptr(self, f, o, cache, depth=0):
+        """operand -> (param idx, offset|None) or None"""
+        if o[0] == "a":
+            return (o[1], 0)
+        if o[0] != "v" or depth > 20:
+            return None
+        k = o[1]
+        if k in cache:
+            return cache[k]
+        cache[k] = None
+        d = f.insts[k]
+        op = d["op"]
+        r = None
+        if op in ("bitcast", "freeze"):
+            r = self._ptr(f, d["ops"][0], cache, depth + 1)
+        elif op == "getelementptr":
+            b = self._ptr(f, d["ops"][0], cache, depth + 1)
+            if b is not None:
+                if d["var"] or b[1] is None:
+                    r = (b[0], None)
+                else:
+                    r = (b[0], b[1] + d["off"])
+        elif op == "phi":
+            rs = [self._ptr(f, v, cache, depth + 1) for v, _b in d["inc"]]
+            ps = {x[0] for x in rs if x is not None}
+            if len(ps) == 1 and all(x is not None for x in rs):
+                offs = {x[1] for x in rs}
+                r = (ps.pop(), offs.pop() if len(offs) == 1 else None)
+            elif len(ps) == 1:
+                r = (ps.pop(), None)
+        elif op == "select":
+            rs = [self._ptr(f, v, cache, depth + 1) for v in d["ops"][1:]]
+            ps = {x[0] for x in rs if x is not None}
+            if len(ps) == 1:
+                r = (ps.pop(), None)
+        cache[k] = r
+        return r
+
+    def _compute(self):
+        prog, cg = self.prog, self.cg
+        local = {}
+        calls = {}
+        for f in prog.functions():
+            rr = {}
+            cs = []
+            cache = {}
+            for iid, ins in enumerate(f.insts):
+                op = ins["op"]
+                if op == "load":
+                    p = self._ptr(f, ins["ops"][0], cache)
+                    if p is not None:
+                        if p[1] is None:
+                            rr.setdefault(p[0], []).append(ALL)
+                        else:
+                            rr.setdefault(p[0], []).append((p[1], p[1] + ins["size"]))
+            for iid, res in cg.sites[f.key]:
+                ins = f.insts[iid]
+                ptrs = [self._ptr(f, o, cache) for o in ins["ops"]]
+                for r in res:
+                    if r[0] == "fn":
+                        cs.append((r[1].key, ptrs))
+                    elif r[0] == "ext":
+                        name = r[1]
+                        rd = ext_reads(name, ins)
+                        for i, rng in rd:
+                            if i < len(ptrs) and ptrs[i] is not None:
+                                pi, off = ptrs[i]
+                                if off is None or rng is None:
+                                    rr.setdefault(pi, []).append(ALL)
+                                else:
+                                    rr.setdefault(pi, []).append((off + rng[0], off + rng[1]))
+                    else:
+                        for p in ptrs:
+                            if p is not None:
+                                rr.setdefault(p[0], []).append(ALL)
+            local[f.key] = rr
+            calls[f.key] = cs
+        changed = True
+        while changed:
+            changed = False
+            for k, cs in calls.items():
+                rr = local[k]
+                for ck, ptrs in cs:
+                    crr = local.get(ck, {})
+                    for j, ranges in crr.items():
+                        if j < len(ptrs) and ptrs[j] is not None:
+                            pi, off = ptrs[j]
+                            cur = rr.setdefault(pi, [])
+                            before = _norm_ranges(cur)
+                            for lo, hi in ranges:
+                                if off is None or (lo, hi) == ALL:
+                                    cur.append(ALL)
+                                else:
+                                    cur.append((off + lo, off + hi))
+                            after = _norm_ranges(cur)
+                            rr[pi] = after
+                            if after != before:
+                                changed = True
+        self.rr = local
+
+    def reads(self, fn, idx):
+        return _norm_ranges(self.rr.get(fn.key, {}).get(idx, []))
+
+
+def ext_reads(name, ins):
+    """[(arg index, (lo,hi)|None)] read by an external / intrinsic"""
+    for p in ("llvm.memcpy", "llvm.memmove"):
+        if name.startswith(p):
+            n = ins["ops"][2]
+            if n[0] == "i":
+                return [(1, (0, int(n[1])))]
+            return [(1, None)]
+    if name.startswith("llvm.memset") or name.startswith("llvm.lifetime") or name.startswith("llvm.dbg"):
+        return []
+    if name.startswith("llvm."):
+        return [(i, None) for i in range(len(ins["ops"]))]
+    if name in ("memcmp", "strlen", "strchr", "explicit_bzero", "free"):
+        return [(i, None) for i in range(len(ins["ops"]))] if name != "explicit_bzero" else []
+    return [(i, None) for i in range(len(ins["ops"]))]
